@@ -1226,10 +1226,11 @@ result_t NumberDataType::parseInput(const string inputStr, unsigned int* parsedV
             value = (unsigned int)signedValue;
           }
         } else {
-          value = (unsigned int)strtoul(str, &strEnd, 0);
-          if (errno == ERANGE || (m_bitCount != 32 && value >= (1U << m_bitCount))) {
+          unsigned long unsignedValue = strtoul(str, &strEnd, 0);
+          if (errno == ERANGE || unsignedValue >= (1UL << m_bitCount)) {
             return RESULT_ERR_OUT_OF_RANGE;
           }
+          value = (unsigned int)unsignedValue;
         }
         if (strEnd == nullptr || strEnd == str || (*strEnd != 0 && *strEnd != '.')) {
           return RESULT_ERR_INVALID_NUM;  // invalid value
